@@ -3,6 +3,7 @@
    Part 2, core level 1:      header  be n rank ab_base2k res_base2k a_k b_k res_k cnv_offset
    Part 2, core level 2:      see C05Oracle.v (the model does not re-run the key-dependent part; outputs are judged by the oracle) *)
 From PV Require Import Base.MachineInt Model.Znx Model.Limbs Model.LimbsBig Model.Flat Model.Ring Model.DftAbs Model.C05Cnv Model.C05Core.
+From PV Require Model.Gadget Model.C05Relin.
 Open Scope Z_scope.
 
 Definition p (ps : list Z) (i : nat) : Z := nth i ps 0.
@@ -72,7 +73,22 @@ Definition run_core (code : Z) (ps : list Z) (vs : list (list Z)) : option (list
     out cols asz (glwe_mul_const fft n true cnv ab ab a (v vs 1) a)
   else None.
 
+(* ---------------- part 2, level 1: relinearisation (opcode 5108) ----------------
+   header: be n rank ab kb rb a_size res_size dsize dnum msize ; vs[0] = tensor.data, vs[1] = tensor key before preparation
+   (for q = row*pairs + ci, for c = limb*cols + co : n coefficients, the order of Gadget.pmat_of_flat) ; output = res.data *)
+Definition run_relin (ps : list Z) (vs : list (list Z)) : option (list (list Z)) :=
+  let n := np ps 1 in let rank := np ps 2 in let cols := S rank in let tcols := (cols * (cols + 1) / 2)%nat in
+  let ab := p ps 3 in let kb := p ps 4 in let rb := p ps 5 in
+  let a_size := np ps 6 in let res_size := np ps 7 in let dsize := np ps 8 in let dnum := np ps 9 in let msize := np ps 10 in
+  let T := Gadget.cols_of_flat n tcols a_size (v vs 0) in
+  let K := Gadget.pmat_of_flat n (msize * cols) (v vs 1) in
+  match C05Relin.glwe_relinearize (p ps 0) n ab kb rb rank a_size res_size dsize dnum msize T K with
+  | Some r => Some [Gadget.flat_of_cols res_size r; [1]]
+  | None => None
+  end.
+
 Definition run_c05 (code : Z) (ps : list Z) (vs : list (list Z)) : option (list (list Z)) :=
+  if code =? 5108 then run_relin ps vs else
   if code <? 5100 then run_hal code ps vs
   else if code <? 5200 then run_core code ps vs
   else None.
